@@ -121,6 +121,85 @@ def frame_case(v, arrangement, strict, ordered, N, opts):
 ARRANGEMENTS = (["a", "b"], ["b", "a"], ["a"], ["b"], ["a", "b", "x"], ["x", "a", "b"], ["a", "x", "b"])
 
 
+# ------------------------------------------------------------------ index schemas, physical dtypes, dataframe-level checks (C01 T4-T6)
+def index_case(v, shape, N, opts):
+    """DataFrameSchema / SeriesSchema with an Index or two-level MultiIndex schema over symbolic row labels"""
+    lazy = bool(opts.get("lazy"))
+    ilo = v.int("ilo")
+    uniq = v.bool("idx_unique")
+    rd = opts.get("rd", "all")
+    if shape == "frame_index":
+        obj = v.frame([("a", "float")], N, labels="l", index_name=opts.get("index_name"))
+        schema = pa.DataFrameSchema({"a": pa.Column(float, nullable=True)}, index=pa.Index(int, Check.ge(ilo), unique=uniq, report_duplicates=rd,
+                                                                                          name=opts.get("schema_index_name")))
+        labs = [[z3.Int(f"l{i}") for i in range(N)]]
+        los, uniqs = [ilo], [uniq]
+        name_ok = opts.get("schema_index_name") is None or opts.get("schema_index_name") == opts.get("index_name")
+    elif shape == "series_index":
+        obj = v.series("x", "float", N, sname="s", labels="l")
+        schema = pa.SeriesSchema(float, nullable=True, name="s", index=pa.Index(int, Check.ge(ilo), unique=uniq, report_duplicates=rd))
+        labs = [[z3.Int(f"l{i}") for i in range(N)]]
+        los, uniqs = [ilo], [uniq]
+        name_ok = True
+    elif shape == "frame_multiindex":
+        obj = v.mi_frame([("a", "float")], N, levels=[("k0", "l"), ("k1", "m")])
+        mlo = v.int("mlo")
+        schema = pa.DataFrameSchema({"a": pa.Column(float, nullable=True)},
+                                    index=pa.MultiIndex([pa.Index(int, Check.ge(ilo), name="k0", unique=uniq), pa.Index(int, Check.le(mlo), name="k1")]))
+        labs = [[z3.Int(f"l{i}") for i in range(N)], [z3.Int(f"m{i}") for i in range(N)]]
+        los, uniqs = [ilo, None], [uniq, False]
+        name_ok = True
+    else:
+        raise KeyError(shape)
+    snap = H.snapshot(obj)
+    o = H.outcome(lambda: schema.validate(obj, lazy=lazy))
+    terms = [z3.BoolVal(bool(name_ok))]
+    for lv, ls in enumerate(labs):
+        if lv == 0:
+            terms += [l >= v.z(ilo) for l in ls]
+            dup = zor(ls[i] == ls[j] for i in range(N) for j in range(i + 1, N))
+            terms.append(z3.Not(z3.And(v.z(uniq), dup)))
+        else:
+            terms += [l <= v.z(mlo) for l in ls]
+    spec = zand(terms)
+    asserts = [("verdict", v.iff(o["kind"] == "accept", spec)), ("channel", v.holds(channel_ok(o))), ("input_unchanged", H.equal_to_snapshot(v, obj, snap))]
+    if o["kind"] == "accept":
+        asserts.append(("output_equals_input", H.equal_to_snapshot(v, o["out"], snap)))
+        asserts.append(("kind_preserved", v.holds(kind_of_container(o["out"]) == kind_of_container(obj))))
+    return dict(obs=o, asserts=asserts, facts=dict(kind=o["kind"], reason=o.get("reason"), reasons=o.get("reasons")))
+
+
+def wide_case(v, shape, N, opts):
+    """dataframe-level checks: a row-wise comparison of two columns, a scalar check, an element-wise column check, a groupby check"""
+    lazy = bool(opts.get("lazy"))
+    c = v.int("c")
+    df = v.frame([("a", "float", False), ("b", "int")], N, labels="l")
+    xa, _ = v.cells("a_", "float", N, False)
+    xb, _ = v.cells("b_", "int", N, False)
+    R = lambda t: z3.ToReal(t) if z3.is_int(t) else t  # noqa: E731
+    if shape == "rowwise":
+        schema = pa.DataFrameSchema({"a": pa.Column(float), "b": pa.Column(int)}, checks=Check(lambda d: d["a"] >= d["b"]))
+        spec = zand(xa[i] >= R(xb[i]) for i in range(N))
+    elif shape == "scalar":
+        schema = pa.DataFrameSchema({"a": pa.Column(float), "b": pa.Column(int)}, checks=Check(lambda d: (d["b"] <= c).all()))
+        spec = zand(xb[i] <= v.z(c) for i in range(N))
+    elif shape == "element_wise":
+        schema = pa.DataFrameSchema({"a": pa.Column(float, Check(lambda x: x > c, element_wise=True)), "b": pa.Column(int)})
+        spec = zand(xa[i] > R(v.z(c)) for i in range(N))
+    elif shape == "two_checks":
+        schema = pa.DataFrameSchema({"a": pa.Column(float, [Check.ge(c), Check.le(c + 5)]), "b": pa.Column(int, Check.ne(c))})
+        spec = zand(z3.And(xa[i] >= R(v.z(c)), xa[i] <= R(v.z(c)) + 5, xb[i] != v.z(c)) for i in range(N))
+    else:
+        raise KeyError(shape)
+    snap = H.snapshot(df)
+    o = H.outcome(lambda: schema.validate(df, lazy=lazy))
+    asserts = [("verdict", v.iff(o["kind"] == "accept", spec)), ("channel", v.holds(channel_ok(o))), ("input_unchanged", H.equal_to_snapshot(v, df, snap))]
+    if o["kind"] == "accept":
+        asserts.append(("output_equals_input", H.equal_to_snapshot(v, o["out"], snap)))
+        asserts.append(("kind_preserved", v.holds(is_frame(o["out"]))))
+    return dict(obs=o, asserts=asserts, facts=dict(kind=o["kind"], reason=o.get("reason"), reasons=o.get("reasons")))
+
+
 # ------------------------------------------------------------------ parsing options (C03 C04 C06 C11 C02)
 def parse_case(v, arrangement, N, opts):
     """DataFrameSchema {a: float col, b: int col} with any combination of the parsing options:
@@ -314,6 +393,12 @@ def standard_cases(tier):
     for comp in ("column", "column_coerce", "column_default", "index", "index_coerce", "multiindex", "multiindex_coerce"):
         for lazy in (False, True):
             ts.append((f"K/{comp}/lazy={int(lazy)}/N={N}", component_case, (comp, N, lazy)))
+    for shape in ("frame_index", "series_index", "frame_multiindex"):
+        for lazy in (False, True):
+            ts.append((f"I/{shape}/lazy={int(lazy)}/N={N}", index_case, (shape, N, dict(lazy=lazy))))
+    for shape in ("rowwise", "scalar", "element_wise", "two_checks"):
+        for lazy in (False, True):
+            ts.append((f"W/{shape}/lazy={int(lazy)}/N={N}", wide_case, (shape, N, dict(lazy=lazy))))
     # the parsing options under a restricted validation depth (checks are removed, parsers still run)
     for depth in ("SO", "DO"):
         for arr, c in ((["a", "b"], dict(coerce="col", a_kind="int")), (["a", "b"], dict(default=True)), (["a", "b", "x"], dict(strict="filter")),
